@@ -16,7 +16,7 @@ def pkOut : Out → String
 
 def pkShow (s : St) : String :=
   let rows := (s.db.map fun r => (r.id, r.sent)).mergeSort (fun a b => a.1 ≤ b.1)
-  s!"db={",".intercalate (rows.map fun (i, b) => s!"{i}:{if b then 1 else 0}")};unsent={s.unsent.length};passive={if s.passiveProp then 1 else 0};reboot={if s.rebootFlag then 1 else 0}"
+  s!"db={",".intercalate (rows.map fun (i, b) => s!"{i}:{if b then 1 else 0}")};tomb={",".intercalate ((s.tomb.mergeSort (· ≤ ·)).map toString)};unsent={s.unsent.length};passive={if s.passiveProp then 1 else 0};reboot={if s.rebootFlag then 1 else 0}"
 
 def pkEv : List String → Option Ev
   | ["connect"] => some .connect
